@@ -134,9 +134,14 @@ def parse_method(path, fn, root_style):
                 raise K1Error(f"{path}: {fn.name} argument entry {ast.unparse(v)}")
             ty, val = v.values
             ser = False
-            if isinstance(val, ast.Call) and isinstance(val.func, ast.Name) and len(val.args) == 1 \
-                    and isinstance(val.args[0], ast.Name) and not val.keywords:
-                ser, pn = val.func.id, val.args[0].id
+            if isinstance(val, ast.IfExp):
+                call = val.body
+                if not (isinstance(call, ast.Call) and isinstance(call.func, ast.Name) and len(call.args) == 1
+                        and isinstance(call.args[0], ast.Name) and not call.keywords
+                        and ast.unparse(val.test) == f"{call.args[0].id} is not None"
+                        and ast.unparse(val.orelse) == "None"):
+                    raise K1Error(f"{path}: {fn.name} serialize wrapping {ast.unparse(val)}")
+                ser, pn = call.func.id, call.args[0].id
             elif isinstance(val, ast.Name):
                 pn = val.id
             else:
@@ -404,7 +409,8 @@ def _budget(run, kind, limit=5):
     return b < limit
 
 
-GUARD_CLASSES = ["F15-shared-mutation", "F15-python-name", "F15-list-wrapper", "F15-serialize-none", "F15-deep-vars"]
+# the regression cases of the seven repaired classes stay in the witness corpus; their classes are
+# no longer open, so a failure there is a VIOLATION again
 
 
 # ------------------------------------------------------------------------------------------------
@@ -628,29 +634,23 @@ def judge(ctx, run, j, o):
                 run.nontrivial_case(hash(key))
             run.sample({"scenario": label, "kind": op["kind"], "expression": op["model"], "query": r["query"],
                         "variables": r["variables"], "after_operations": oi, "oracle": problems or "ok"}, limit=8)
-            all_guards = all(guards[1:]) and shared_ok and nodup == "t"
-            run.dist("guards", "".join("ft"[g] for g in [shared_ok] + guards[1:] + [nodup == "t"]))
-            if all_guards and faithful != "t":
-                run.broken("theorem instance", f"{label}: guards hold but the model's request does not resolve to the ideal: {replay['history']}")
+            run.dist("guards", f"shared_ok={shared_ok}")
+            if nodup != "t":
+                run.broken("theorem instance C14_unique_var_names_operation", f"{label}: duplicate variable names in the model's request: {replay['history']}")
+            if shared_ok and faithful != "t":
+                run.broken("theorem instance C14_doc_valid", f"{label}: no shared mutation but the model's request does not resolve to the ideal: {replay['history']}")
             if not problems:
                 run.dist("outcome", "ok")
                 if faithful != "t" and agree:
                     run.dist("soft", "model-unfaithful-but-oracle-passes")
                 continue
             run.dist("outcome", "property-fails")
-            classes = []
-            if not shared_ok:
-                classes.append("F15-shared-mutation")
-            for g, c in zip(guards[1:], GUARD_CLASSES[1:]):
-                if not g:
-                    classes.append(c)
-            if nodup != "t":
-                classes.append("F15-var-collision")
-            if hist_dep and shared_ok:
-                classes = []          # history dependence is only explained by a shared mutation
+            classes = [] if shared_ok else ["F15-shared-mutation"]
+            if meta["stream"] == "witness" and meta["class"] and meta["class"] != "F15-shared-mutation":
+                classes = [meta["class"]]      # a repaired class came back: reported under its name
             what = f"{label} op {oi}: " + " | ".join(problems)[:500]
             rep = {**replay, "impl": r, "ideal_query": itext, "ideal_variables": ivars, "problems": problems,
-                   "guards": dict(zip(["shared", "names", "types", "ser", "depth", "nodup"], [shared_ok] + guards[1:] + [nodup == "t"]))}
+                   "guards": {"no_shared_mutation_so_far": shared_ok, "names_distinct": nodup == "t"}}
             if not classes:
                 if _budget(run, "property", 8):
                     run.violation(what, rep)
